@@ -95,10 +95,15 @@ def main():
     res = []
     dst = os.path.join(SCRATCH, "repo")
     evdir = os.path.join(SCRATCH, "evidence")
+    budget = float(os.environ.get("WT_SELFTEST_BUDGET_S", "0") or 0)   # 0 = no limit; the thorough tier of ./check sets one
+    t_start = time.time()
     for m in mutants:
         if only and only not in m["name"]:
             continue
         if prop and prop not in m["props"]:
+            continue
+        if budget and time.time() - t_start > budget:
+            res.append({"name": m["name"], "status": "skipped", "why": "time budget of %ds used up" % budget})
             continue
         t0 = time.time()
         copy_repo(dst)
